@@ -194,7 +194,15 @@ func ask(ctx *hx.Ctx, c Case) string {
 
 // shrink: delta-debugging on the operation list with "same class of problem" as the predicate.
 func shrink(ctx *hx.Ctx, prop string, c Case, class string) Case {
+	budget := 400 // re-executions (long histories with a hundred validators are slow)
+	if c.Cfg.MBP > 101 {
+		budget = 60
+	}
 	still := func(ops []Op) bool {
+		if budget <= 0 {
+			return false
+		}
+		budget--
 		cc := Case{Cfg: c.Cfg, Ops: ops}
 		t := Execute(prop, cc)
 		p := judge(prop, t, ask(ctx, cc))
@@ -230,6 +238,39 @@ func report(ctx *hx.Ctx, prop string, t *Trace, answer string) {
 	// a model/implementation disagreement: look for an input on which the property itself fails (the predicates ran on
 	// every step of the case and of its shrunk variants above; none failed if we get here with found=false)
 	ctx.Violation(sp.class, sp.summary, small, sp.found)
+}
+
+// Problems of the generated histories are reported at the end, inputs on which the property itself fails first (one trace
+// per class is kept, so the memory is bounded by the number of classes).
+type pendingReport struct {
+	t      *Trace
+	answer string
+	found  bool
+}
+
+var pendingReports = map[string]pendingReport{}
+var pendingOrder []string
+
+func deferReport(prop string, t *Trace, answer string) {
+	p := judge(prop, t, answer)
+	if p == nil {
+		return
+	}
+	if _, seen := pendingReports[p.class]; seen {
+		return
+	}
+	pendingReports[p.class] = pendingReport{t, answer, p.found}
+	pendingOrder = append(pendingOrder, p.class)
+}
+
+func flushReports(ctx *hx.Ctx, prop string) {
+	for _, wantFound := range []bool{true, false} {
+		for _, cl := range pendingOrder {
+			if r := pendingReports[cl]; r.found == wantFound {
+				report(ctx, prop, r.t, r.answer)
+			}
+		}
+	}
 }
 
 // Main is the whole driver; prop is "C16" or "C17".
@@ -347,9 +388,21 @@ func Main(prop string) {
 					ctx.Cov.Count("hist_" + k)
 				}
 			}
-			report(ctx, prop, t, answers[i])
+			deferReport(prop, t, answers[i])
 		}
 	}
+	// a few histories with max-block-proposers above 101 (the 2/3 rule must use the configured, uncapped value)
+	if os.Getenv("VERIF_STAKER_ONLY") != "contract" {
+		big := hx.NewRand(ctx.Seed ^ 0xB16B16)
+		for i := 0; i < ctx.Scale(3, 40); i++ {
+			c := GenBig(big.Fork(uint64(i)))
+			t := Execute(prop, c)
+			ctx.Cov.Count("big_mbp_histories")
+			ctx.Cov.Case(c.Line(), t.PoS, nil)
+			deferReport(prop, t, ask(ctx, c))
+		}
+	}
+	flushReports(ctx, prop)
 	ContractSlice(ctx, prop)
 	ctx.Finish(rule, assumptions)
 }
